@@ -406,4 +406,4 @@ def check_stable_sorts(F, C):
                     nsort += 1
                     C.ob("C07/stable-sort", "%s calls %s" % (k, d.rsplit("::", 1)[-1]), "sort_unstable" not in d,
                          "an unstable sort may reorder fields/paragraphs that compare equal (duplicate names, comparators that look at part of the name)", f.get("sp", ""))
-    C.floor("C07/stable-sort", nsort, 2, "sort calls reachable from wrap_and_sort")
+    C.floor("C07/stable-sort", nsort, 1, "sort calls reachable from wrap_and_sort")
